@@ -369,7 +369,7 @@ def step (st : St) (toks : List String) : St × String :=
   | ["move", r, s] =>
     match reg? r, reg? s with
     | some r, some s =>
-      if r = s then (st, "bad-op") else
+      if r = s then (st, "ok") else      -- `Plunder(*this)` returns at once (repair of the self-move finding)
       match getReg st r, getReg st s with
       | some a, some b => let (a', b') := plunder c a b; (setReg (setReg st r (some a')) s (some b'), "ok")
       | _, _ => (setReg (setReg st r none) s none, "ok")
@@ -381,6 +381,78 @@ def step (st : St) (toks : List String) : St × String :=
       match getReg st r, getReg st s with
       | some a, some b => let (a', b') := swapContents c a b; (setReg (setReg st r (some a')) s (some b'), "ok")
       | _, _ => (setReg (setReg st r none) s none, "ok")
+    | _, _ => (st, "bad-op")
+  | ["movector", r, s] =>       -- regs[r] is replaced by `Queue(std::move(regs[s]))`
+    match reg? r, reg? s with
+    | some r, some s =>
+      if r = s then (st, "bad-op") else
+      match getReg st s with
+      | some b => let (a', b') := plunder c (Ring.empty c) b; (setReg (setReg st r (some a')) s (some b'), "ok")
+      | none => (setReg (setReg st r none) s none, "ok")
+    | _, _ => (st, "bad-op")
+  | ["copyctor", r, s] =>       -- regs[r] is replaced by `Queue(regs[s])`
+    match reg? r, reg? s with
+    | some r, some s =>
+      if r = s then (st, "bad-op") else
+      match getReg st s with
+      | some b => (setReg st r (some ((Ring.empty c).assign c (b.abs c))), "ok")
+      | none => (setReg st r none, "ok")
+    | _, _ => (st, "bad-op")
+  | ["insap", r, i, j, n] =>    -- InsertItemsAt(i, &q[j], n clipped to the contiguous run)
+    match reg? r, u32? i, u32? j, u32? n with
+    | some r, some i, some j, some n =>
+      match getReg st r with
+      | none => (st, "?")
+      | some q =>
+        if j < q.count ∧ 0 < n then (setReg st r (some (q.insertItemsOwn c i j (min n (q.contigFrom j)))), "ok") else (st, "bad-op")
+    | _, _, _, _ => (st, "bad-op")
+  | ["addtailap", r, j, n] =>   -- AddTailMulti(&q[j], n clipped)
+    match reg? r, u32? j, u32? n with
+    | some r, some j, some n =>
+      match getReg st r with
+      | none => (st, "?")
+      | some q =>
+        if j < q.count ∧ 0 < n then (setReg st r (some (q.addTailMulti c (((q.abs c).drop j).take (min n (q.contigFrom j))))), "ok") else (st, "bad-op")
+    | _, _, _ => (st, "bad-op")
+  | ["addheadap", r, j, n] =>   -- AddHeadMulti(&q[j], n clipped)
+    match reg? r, u32? j, u32? n with
+    | some r, some j, some n =>
+      match getReg st r with
+      | none => (st, "?")
+      | some q =>
+        if j < q.count ∧ 0 < n then (setReg st r (some (q.addHeadMulti c (((q.abs c).drop j).take (min n (q.contigFrom j))))), "ok") else (st, "bad-op")
+    | _, _, _ => (st, "bad-op")
+  | ["setat", r, i, j] =>       -- ReplaceItemAt(i, q[j])
+    match reg? r, u32? i, u32? j with
+    | some r, some i, some j =>
+      match getReg st r with
+      | none => (st, "?")
+      | some q =>
+        if j < q.count then let (q', ok) := q.replaceItemAt i (q.get c j); (setReg st r (some q'), okS ok) else (st, "bad-op")
+    | _, _, _ => (st, "bad-op")
+  | ["remfirstat", r, j] =>     -- RemoveFirstInstanceOf(q[j])
+    match reg? r, u32? j with
+    | some r, some j =>
+      match getReg st r with
+      | none => (st, "?")
+      | some q =>
+        if j < q.count then dep st r fun q => let (q', ok) := q.removeFirst c (q.get c j); (q', okS ok) else (st, "bad-op")
+    | _, _ => (st, "bad-op")
+  | ["remlastat", r, j] =>      -- RemoveLastInstanceOf(q[j])
+    match reg? r, u32? j with
+    | some r, some j =>
+      match getReg st r with
+      | none => (st, "?")
+      | some q =>
+        if j < q.count then dep st r fun q => let (q', ok) := q.removeLast c (q.get c j); (q', okS ok) else (st, "bad-op")
+    | _, _ => (st, "bad-op")
+  | ["inssortedat", r, j] =>    -- InsertItemAtSortedPosition(q[j])
+    match reg? r, u32? j with
+    | some r, some j =>
+      match getReg st r with
+      | none => (st, "?")
+      | some q =>
+        if j < q.count then dep st r fun q => let (q', i) := q.insertSortedPos c (ltItem false) (q.get c j); (q', toString i) else (st, "bad-op")
     | _, _ => (st, "bad-op")
   | ["dump", r] =>
     match reg? r with
